@@ -170,3 +170,8 @@ package xrep
 //@ func (*socket).SetOption
 //@   ensures (name == protocol.OptionReadQLen) && isnil(result) ==> evcount("closed") == 1
 //@   ensures !isnil(result) ==> evcount("closed") == 0
+// ---- generated Info contracts (tools/gen_info_contracts.py) ----
+//@ func (*socket).Info
+//@   ensures result.Self == 49 && result.Peer == 48 && result.SelfName == "rep" && result.PeerName == "req"
+//@
+// ---- end generated Info contracts ----
